@@ -14,6 +14,11 @@ flow  {"t":"flow", "species":[labels], "vertices":[labels], "edges":[[eid, tail,
        "max_states": int|None, "max_depth": int|None, "via":"direct"|"hg"}
       observable: the extended net (places, transitions, M0, MT), verdict, certificate, number of
       enabled()/fire() calls made by the bounded BFS.
+hist  {"t":"hist", species, vertices, edges, flow (as for flow cases), "ops":[op,...]}  — a call HISTORY on ONE object:
+      op = ["R", max_states|None, max_depth|None] is_realizable, ["S", k_max] is_scaled_realizable, ["C"] the certificate
+      property, ["B"] build_petri_net_from_flow, ["L", [[eid, f],...]] load_hypergraph_and_flow with a new flow,
+      ["W", max_borrow_each] is_borrow_realizable (oracle only: not modelled).
+      observable: per call the answer and the object's fields right after it (flow, built net places, M0, MT, certificate).
 """
 import itertools
 
@@ -29,13 +34,16 @@ COQ_TIMEOUT = 1500
 RULE = ("net cases: a network with its species subsets; petri cases: a net with (marking, transition) queries; flow cases: "
         "(network, integer flow, max_states, max_depth).  Non-trivial: net = at least one subset satisfies and one violates a "
         "predicate; petri = at least one query enabled and one disabled; flow = realizable with a certificate of length >= 2, or "
-        "not realizable although at least 3 markings are reachable.  distinct = distinct canonical case JSON")
+        "not realizable although at least 3 markings are reachable; hist (a call history on one object) = a scaled search that went "
+        "beyond k = 1 or failed, followed by a later is_realizable / certificate call, or two searches with different answers.  "
+        "distinct = distinct canonical case JSON")
 EXHAUSTIVE = {"quick": True, "thorough": True}
 EXPLANATION = ("Exhaustive sub-space: every network of <=2 (quick) / <=3 (thorough) distinct reactions between unit-coefficient "
                "complexes over the species {A,B,C} (56 reactions), with ALL 7 non-empty species subsets evaluated by both index "
                "predicates and the minimal siphons/traps compared.  Everything else (random networks <= 6 species, Petri firing "
                "queries, flows derived from valid firing sequences and their perturbations with <= 10^4 reachable markings, bounds "
-               "at and around the exact reachable-set size and pathway length) is seeded random.")
+               "at and around the exact reachable-set size and pathway length, call histories of 2-8 calls on one object over catalyst pathways "
+               "that need a scaling factor 2-4, autocatalytic pathways that need a borrowed token, gcd-reduced and ordinary walk flows) is seeded random.")
 TRUSTED_BASE = [
     "Coq 8.16.1 kernel + vm_compute (no native_compute)",
     "hand-written model coq/model/C20_Model.v tied to synkit/CRN/Petri/{structure,net}.py and synkit/CRN/Path/realizability.py by the per-run correspondence",
@@ -47,7 +55,10 @@ ASSUMPTIONS = ["species labels do not start with '__ext__' / '__target__' (place
                "stoichiometric coefficients are positive integers",
                "max_states, max_depth are non-negative integers"]
 TESTED_NOT_PROVED = ["siphon_persistence_condition (floating-point semiflows; only its siphon input is covered)",
-                     "find_siphons/find_traps on caller-supplied networkx graphs (modes bip/und) — compared per run, theorem is about CRNHyperGraph input"]
+                     "find_siphons/find_traps on caller-supplied networkx graphs (modes bip/und) — compared per run, theorem is about CRNHyperGraph input",
+                     "is_borrow_realizable inside call histories (op W): not modelled; histories containing it are judged by the Python oracle only "
+                     "(answer equals a fresh object's answer; later certificates valid for the loaded flow)",
+                     "PetriAnalyzer reused after the analysed hypergraph was edited (compute, add reactions, compute): Python oracle only"]
 
 DEFAULT_MAX_STATES = 100000
 DEFAULT_MAX_DEPTH = 10000
@@ -218,8 +229,64 @@ def _impl_flow(case):
     return out
 
 
+def _hist_object(case, flow=None):
+    from synkit.CRN.Path.realizability import PathwayRealizability
+    v = list(case["vertices"])
+    e = {eid: ({s: c for s, c in tail}, {s: c for s, c in head}) for eid, tail, head in case["edges"]}
+    f = {e_: f_ for e_, f_ in (case["flow"] if flow is None else flow)}
+    return PathwayRealizability().load_hypergraph_and_flow(v, e, f), v, e
+
+
+def _hist_call(pr, v, e, op, eidx):
+    """one call of a history -> encoded answer ([9] = RuntimeError 'not built', part of the contract)"""
+    k = op[0]
+    try:
+        if k == "R":
+            ok, cert = pr.is_realizable(max_states=op[1], max_depth=op[2])
+            return [1, bool(ok), [] if cert is None else [[eidx[t] for t in cert]]], (ok, cert)
+        if k == "S":
+            ok, kk = pr.is_scaled_realizable(k_max=op[1])
+            return [2, bool(ok), 0 if kk is None else int(kk)], (ok, kk)
+        if k == "C":
+            cert = pr.certificate
+            return [3, [] if cert is None else [[eidx[t] for t in cert]]], cert
+        if k == "B":
+            pr.build_petri_net_from_flow()
+            return [4], None
+        if k == "L":
+            pr.load_hypergraph_and_flow(v, e, {e_: f_ for e_, f_ in op[1]})
+            return [4], None
+        if k == "W":
+            ok, b = pr.is_borrow_realizable(max_borrow_each=op[1])
+            return [6, bool(ok), [] if b is None else [sorted(b.items())]], (ok, b)
+    except RuntimeError:
+        return [9], "ERR"
+    raise AssertionError(op)
+
+
+def _impl_hist(case):
+    pr, v, e = _hist_object(case)
+    code = _place_code(case)
+    eids = [eid for eid, _, _ in case["edges"]]
+    eidx = {eid: j for j, eid in enumerate(eids)}
+    out = []
+    for op in case["ops"]:
+        ans, _ = _hist_call(pr, v, e, op, eidx)
+        if pr._petri is None:
+            built = []
+        else:
+            built = [S([code[p] for p in pr._petri.places]), {code[p]: c for p, c in pr._initial_marking.items()},
+                     {code[p]: c for p, c in pr._target_marking.items()}]
+        cert = pr._certificate
+        out.append([ans, [[int(pr.flow.get(eid, 0)) for eid in eids], built,
+                          [] if cert is None else [[eidx[t] for t in cert]]]])
+    return out
+
+
 def impl(case):
     t = case["t"]
+    if t == "hist":
+        return _impl_hist(case)
     if t == "net":
         return _impl_net(case)
     if t == "petri":
@@ -276,6 +343,34 @@ def coq_case(case):
                                            clist([cZ(fl.get(eid, 0)) for eid, _, _ in case["edges"]]),
                                            cN(DEFAULT_MAX_STATES if ms is None else ms),
                                            cN(DEFAULT_MAX_DEPTH if md is None else md))
+    if t == "hist":
+        if any(op[0] == "W" for op in case["ops"]):
+            return None              # is_borrow_realizable is not modelled: these histories are oracle-only
+        sp = sorted(set(case["species"]))
+        rank = {s: i for i, s in enumerate(sp)}
+        eids = [eid for eid, _, _ in case["edges"]]
+        ed = clist([cpair(clist([cpair(cN(rank[s]), cZ(c)) for s, c in tail]),
+                          clist([cpair(cN(rank[s]), cZ(c)) for s, c in head])) for _, tail, head in case["edges"]])
+
+        def cflow(fl):
+            d = {e: f for e, f in fl}
+            return clist([cZ(d.get(eid, 0)) for eid in eids])
+        ops = []
+        for op in case["ops"]:
+            k = op[0]
+            if k == "R":
+                ops.append("OpReal %s %s" % (cN(DEFAULT_MAX_STATES if op[1] is None else op[1]),
+                                             cN(DEFAULT_MAX_DEPTH if op[2] is None else op[2])))
+            elif k == "S":
+                ops.append("OpScaled %s" % cnat(op[1]))
+            elif k == "C":
+                ops.append("OpCert")
+            elif k == "B":
+                ops.append("OpBuild")
+            elif k == "L":
+                ops.append("OpLoad %s" % cflow(op[1]))
+        return "run_hist %s %s %s %s" % (clist([cN(rank[s]) for s in case["vertices"]]), ed, cflow(case["flow"]),
+                                         clist(ops))
     raise AssertionError(t)
 
 
@@ -341,6 +436,9 @@ def _oracle_net(case):
                 break
     elif labels != sp and case.get("mode", "hg") == "hg":
         fails.append(dict(clause="species-order", detail="species labels %r, expected %r" % (labels, sp)))
+    # PetriAnalyzer reused on one network object that is edited between two compute calls (oracle only)
+    if case.get("mode", "hg") == "hg" and len(case["rxns"]) >= 2 and not case.get("iso") and case.get("kind") != "net-exh2":
+        fails += _oracle_analyzer_history(case, is_siphon, is_trap, key_base)
     # _minimal_sets on the explicit candidate list
     cands = [frozenset(c) for c in case.get("cands", [])]
     if cands:
@@ -349,6 +447,40 @@ def _oracle_net(case):
         if {frozenset(x) for x in got} != want or len(got) != len(want):
             fails.append(dict(clause="minimal-sets", detail="_minimal_sets(%r) = %r" % (case["cands"], got)))
     return fails
+
+
+def _oracle_analyzer_history(case, is_siphon_full, is_trap_full, key_base):
+    """PetriAnalyzer on a CRNHyperGraph: compute, then add the remaining reactions to the SAME hypergraph, compute
+    again: the second report must be the siphons / traps of the edited network (no stale first report)."""
+    from synkit.CRN.Petri.analyzer import PetriAnalyzer
+    from synkit.CRN.Hypergraph.hypergraph import CRNHyperGraph
+    cut = max(1, len(case["rxns"]) // 2)
+    H = CRNHyperGraph()
+    for l, r in case["rxns"][:cut]:
+        H.add_rxn({s: c for s, c in l}, {s: c for s, c in r})
+    if not H.species:
+        return []
+    an = PetriAnalyzer(H)
+    try:
+        an.compute_siphons_traps()
+    except ValueError:
+        return []
+    first = ({frozenset(x) for x in an.siphons}, {frozenset(x) for x in an.traps})
+    for l, r in case["rxns"][cut:]:
+        H.add_rxn({s: c for s, c in l}, {s: c for s, c in r})
+    an.compute_siphons_traps()
+    sp = sorted(H.species)
+    out = []
+    for nm, got, pred in (("siphons", an.siphons, is_siphon_full), ("traps", an.traps, is_trap_full)):
+        sets = [frozenset(c) for q in range(1, len(sp) + 1) for c in itertools.combinations(sp, q) if pred(set(c))]
+        want = {x for x in sets if not any(y < x for y in sets)}
+        if {frozenset(x) for x in got} != want:
+            out.append(dict(clause="analyzer-history-" + nm, key=key_base + ":analyzer-history-" + nm,
+                            detail="PetriAnalyzer.compute_siphons_traps() after adding reactions %r to the analysed network "
+                                   "reports %s %r, definition gives %r (first report %r)" % (
+                                       case["rxns"][cut:], nm, sorted(map(sorted, got)), sorted(map(sorted, want)),
+                                       sorted(map(sorted, first[0 if nm == "siphons" else 1])))))
+    return out
 
 
 def _oracle_petri(case):
@@ -462,8 +594,116 @@ def _oracle_flow(case):
     return fails
 
 
+def _check_cert(case, flow, cert):
+    """definition check of a firing sequence against (edges, flow): [] or a list of failure dicts"""
+    ed = {eid: (pre, post, f) for (eid, _, _), (pre, post, f) in zip(case["edges"], _flow_net(dict(case, flow=flow)))}
+    fails = []
+    m, cnt = {}, {}
+    for t in cert:
+        if t not in ed:
+            return [dict(clause="certificate", detail="unknown reaction %r in the sequence" % (t,))]
+        pre, post, _ = ed[t]
+        cnt[t] = cnt.get(t, 0) + 1
+        for s, c in pre.items():
+            m[s] = m.get(s, 0) - c
+            if m[s] < 0:
+                fails.append(dict(clause="certificate-nonnegative", detail="sequence %r drives %s negative" % (cert, s)))
+        for s, c in post.items():
+            m[s] = m.get(s, 0) + c
+    for eid, (_, _, f) in ed.items():
+        if cnt.get(eid, 0) != f:
+            fails.append(dict(clause="certificate-counts",
+                              detail="sequence %r fires %s %d times, flow %d" % (cert, eid, cnt.get(eid, 0), f)))
+    if any(v != 0 for v in m.values()):
+        fails.append(dict(clause="certificate-zero", detail="sequence %r ends at %r" % (cert, m)))
+    return fails[:2]
+
+
+def _oracle_hist(case):
+    """A call history on ONE object.  Every answer is judged against the flow that is loaded at that moment
+    (the ORIGINAL flow until a reload): a certificate returned anywhere in the history must be a valid ordering
+    of exactly that flow; a negative verdict must not contradict exhaustive reachability within the bounds; and
+    every answer must equal the answer of a FRESH object (loaded with that flow, built) to the same call."""
+    pr, v, e = _hist_object(case)
+    eids = [eid for eid, _, _ in case["edges"]]
+    eidx = {eid: j for j, eid in enumerate(eids)}
+    cur = [list(x) for x in case["flow"]]
+    built = False
+    borrowed = False
+    fails = []
+    memo = {}
+
+    def truth(flow):
+        key = tuple(map(tuple, flow))
+        if key not in memo:
+            memo[key] = reach(dict(case, flow=flow), limit=60000)
+        return memo[key]
+
+    def where(i):
+        return "call %d %r of history %r" % (i, case["ops"][i], case["ops"])
+    for i, op in enumerate(case["ops"]):
+        k = op[0]
+        ans, raw = _hist_call(pr, v, e, op, eidx)
+        want_flow = {e_: f_ for e_, f_ in (op[1] if k == "L" else cur)}
+        if [pr.flow.get(eid, 0) for eid in eids] != [want_flow.get(eid, 0) for eid in eids]:
+            fails.append(dict(clause="history-flow", detail="%s: the object's flow is %r, loaded %r" % (where(i), dict(pr.flow), want_flow)))
+        if k in ("R", "S", "W"):
+            fresh, fv, fe = _hist_object(case, cur)
+            if built:
+                fresh.build_petri_net_from_flow()
+            fans, _ = _hist_call(fresh, fv, fe, op, eidx)
+            if fans != ans:
+                fails.append(dict(clause="history-independence",
+                                  detail="%s answered %r, a fresh object with flow %r answers %r" % (where(i), ans, cur, fans)))
+        if k == "R" and raw != "ERR":
+            ok, cert = raw
+            ms = DEFAULT_MAX_STATES if op[1] is None else op[1]
+            md = DEFAULT_MAX_DEPTH if op[2] is None else op[2]
+            if ok:
+                if cert is None:
+                    fails.append(dict(clause="certificate", detail="%s: verdict True without a firing sequence" % where(i)))
+                else:
+                    for f in _check_cert(case, cur, cert):
+                        fails.append(dict(f, detail=where(i) + ": " + f["detail"] + " (flow %r)" % (cur,)))
+            else:
+                tr, nreach, hit = truth(cur)
+                total = sum(f for _, f in cur)
+                if tr and not hit and nreach <= ms and total <= md:
+                    fails.append(dict(clause="complete", detail="%s: an ordering of %r exists within the bounds, verdict False" % (where(i), cur)))
+            borrowed = False
+        elif k == "S" and raw != "ERR":
+            ok, kk = raw
+            if ok:
+                tr, _, hit = truth([[e_, kk * f_] for e_, f_ in cur])
+                if not hit and not tr:
+                    fails.append(dict(clause="scaled-sound", detail="%s: %d x %r has no ordering" % (where(i), kk, cur)))
+            else:
+                for q in range(1, op[1] + 1):
+                    tr, nreach, hit = truth([[e_, q * f_] for e_, f_ in cur])
+                    if tr and not hit and nreach <= DEFAULT_MAX_STATES and q * sum(f for _, f in cur) <= DEFAULT_MAX_DEPTH:
+                        fails.append(dict(clause="scaled-complete", detail="%s: %d x %r has an ordering, answer False" % (where(i), q, cur)))
+                        break
+            built, borrowed = True, False
+        elif k == "C":
+            if raw is not None and not borrowed:
+                for f in _check_cert(case, cur, raw):
+                    fails.append(dict(f, detail=where(i) + ": stored certificate: " + f["detail"] + " (flow %r)" % (cur,)))
+        elif k == "B":
+            built, borrowed = True, False
+        elif k == "L":
+            cur = [list(x) for x in op[1]]
+            built, borrowed = False, False
+        elif k == "W":
+            built, borrowed = True, True
+        if len(fails) >= 3:
+            break
+    return fails[:3]
+
+
 def oracle(case):
     t = case["t"]
+    if t == "hist":
+        return _oracle_hist(case)
     if t == "net":
         return _oracle_net(case)[:3]
     if t == "petri":
@@ -475,6 +715,14 @@ def oracle(case):
 
 def nontrivial(case, obs):
     t = case["t"]
+    if t == "hist":
+        # a scaled search that had to go beyond k = 1 (or failed) followed by a later is_realizable / certificate call,
+        # or at least two answered searches with different answers
+        ans = [a for a, _ in obs]
+        for i, a in enumerate(ans):
+            if a[0] == 2 and (a[2] >= 2 or not a[1]) and any(b[0] in (1, 3) for b in ans[i + 1:]):
+                return True
+        return len({repr(a) for a in ans if a[0] in (1, 2)}) >= 2
     if t == "net":
         if obs[0] != 1:
             return False
@@ -499,6 +747,27 @@ def distribution(cases, obss):
         t = c["t"]
         d["types"][t] = d["types"].get(t, 0) + 1
         if not isinstance(o, list) or (o and o[0] == "EXC"):
+            continue
+        if t == "hist":
+            h = d.setdefault("hist", dict(kinds={}, ops={}, length={}, scaled_k={}, real_true=0, real_false=0, errors=0,
+                                          scaled_k_ge2_then_real=0, with_borrow=0))
+            h["kinds"][c.get("kind", "?")] = h["kinds"].get(c.get("kind", "?"), 0) + 1
+            L = str(len(c["ops"]))
+            h["length"][L] = h["length"].get(L, 0) + 1
+            h["with_borrow"] += any(op[0] == "W" for op in c["ops"])
+            ans = [a for a, _ in o]
+            for op in c["ops"]:
+                h["ops"][op[0]] = h["ops"].get(op[0], 0) + 1
+            for i, a in enumerate(ans):
+                if a[0] == 1:
+                    h["real_true" if a[1] else "real_false"] += 1
+                elif a[0] == 2:
+                    kk = str(a[2]) if a[1] else "none"
+                    h["scaled_k"][kk] = h["scaled_k"].get(kk, 0) + 1
+                    if a[1] and a[2] >= 2 and any(b[0] == 1 for b in ans[i + 1:]):
+                        h["scaled_k_ge2_then_real"] += 1
+                elif a[0] == 9:
+                    h["errors"] += 1
             continue
         if t == "net":
             if o[0] != 1:
@@ -896,8 +1165,172 @@ TEXTBOOK_NETS = [
 ]
 
 
+# ---- call histories on one object ------------------------------------------------------------
+
+HIST_REACH = 500        # bound on the reachable markings of every (scaled) flow a history can make the object search
+
+
+def _catalyst_base(rng):
+    """a pathway that needs c copies of a catalyst at once while the flow makes only a per round:
+    realizable exactly from the scaling factor ceil(c / a) on."""
+    a = rng.choice([1, 1, 1, 2])
+    c = rng.choice([x for x in (2, 3, 4) if x > a])
+    X, P = rng.choice([("X", "P"), ("A", "B"), ("P", "X"), ("b2", "A1")])
+    fc = rng.choice([1, 1, 2])
+    edges = [["make", [], [[X, 1]]], ["cat", [[X, c]], [[X, c], [P, 1]]], ["drain", [[P, 1]], []], ["drop", [[X, 1]], []]]
+    flow = {"make": a, "cat": fc, "drain": fc, "drop": a}
+    if rng.random() < 0.4:                       # an uninvolved side branch
+        edges += [["s_in", [], [["Q", 1]]], ["s_out", [["Q", 1]], []]]
+        flow.update(s_in=1, s_out=1)
+    if rng.random() < 0.3:                       # an edge the flow does not use
+        edges.append(["idle", [[P, 1]], [[X, 1]]])
+        flow["idle"] = 0
+    rng.shuffle(edges)
+    sp = sorted({s for _, t, h in edges for s, _ in t + h})
+    return dict(t="hist", kind="hist-catalyst", species=sp, vertices=list(sp), edges=edges,
+                flow=[[e[0], flow[e[0]]] for e in edges], need=-(-c // a))
+
+
+def _autocat_base(rng):
+    """autocatalysis A + X -> 2 X fed and drained: not realizable at any scale, realizable with one borrowed X"""
+    A, X = rng.choice([("A", "X"), ("X", "A"), ("S", "E")])
+    f = rng.choice([1, 1, 2])
+    edges = [["auto", [[A, 1], [X, 1]], [[X, 2]]], ["feed", [], [[A, 1]]], ["out", [[X, 1]], []]]
+    rng.shuffle(edges)
+    sp = sorted([A, X])
+    return dict(t="hist", kind="hist-autocat", species=sp, vertices=list(sp), edges=edges, flow=[[e[0], f] for e in edges], need=2)
+
+
+def _gcd_base(rng):
+    """random walk flow divided by its gcd (g >= 2): sometimes realizable only when scaled back"""
+    from math import gcd
+    for _ in range(200):
+        b = _flow_case_from_walk(rng, HIST_REACH)
+        b["flow"] = [[e, f * rng.choice([1, 2, 2, 3])] for e, f in b["flow"]] if rng.random() < 0.5 else b["flow"]
+        g = 0
+        for _, f in b["flow"]:
+            g = gcd(g, f)
+        if g >= 2:
+            b["flow"] = [[e, f // g] for e, f in b["flow"]]
+            b.update(t="hist", kind="hist-gcd")
+            return b
+    return None
+
+
+def _rand_ops(rng, base, n):
+    ops = []
+    fl = base["flow"]
+    for _ in range(n):
+        z = rng.random()
+        if z < 0.36:
+            b = rng.random()
+            ops.append(["R", None, None] if b < 0.75 else ["R", rng.randint(0, 12), None] if b < 0.9 else ["R", None, rng.randint(0, 6)])
+        elif z < 0.62:
+            ops.append(["S", rng.choice([0, 1, 2, 2, 3, 3, 4])])
+        elif z < 0.78:
+            ops.append(["C"])
+        elif z < 0.88:
+            ops.append(["B"])
+        elif z < 0.96:
+            q = rng.random()
+            if q < 0.4:
+                nf = [[e, 2 * f] for e, f in fl]
+            elif q < 0.6:
+                nf = [list(x) for x in base["flow"]]
+            else:
+                nf = [[e, max(0, f + rng.choice([-1, 0, 0, 1]))] for e, f in fl]
+            fl = nf
+            ops.append(["L", nf])
+        else:
+            ops.append(["W", 1])
+    return ops
+
+
+HIST_PATTERNS = [
+    ["B", "S", "R", "C"], ["S", "R"], ["B", "R", "S", "C", "R"], ["B", "S", "C", "S", "R"], ["S", "C", "R", "C"],
+    ["B", "R", "C", "S", "R", "C"], ["S", "B", "R"], ["B", "S", "L2", "R", "B", "R", "C"], ["B", "R", "L2", "R", "C", "S", "R"],
+    ["R", "B", "R", "Rb", "C", "R", "C"], ["B", "W", "R", "C"], ["B", "S", "W", "R"],
+]
+
+
+def _hist_ok(case):
+    """every flow the history can make the object search has a small, exhaustively known state space"""
+    cur = case["flow"]
+    flows = []
+    for op in case["ops"]:
+        if op[0] == "L":
+            cur = op[1]
+        elif op[0] in ("R", "W"):
+            flows.append((cur, 1))
+        elif op[0] == "S":
+            flows += [(cur, q) for q in range(1, op[1] + 1)]
+    seen = set()
+    for fl, q in flows:
+        key = (tuple(map(tuple, fl)), q)
+        if key in seen:
+            continue
+        seen.add(key)
+        _, n, hit = reach(dict(case, flow=[[e, q * f] for e, f in fl]), limit=HIST_REACH)
+        if hit:
+            return False
+    if any(op[0] == "W" for op in case["ops"]) and len(case["vertices"]) > 4:
+        return False
+    return True
+
+
+def gen_histories(n, rng):
+    cases = []
+    tries = 0
+    while len(cases) < n and tries < 40 * n:
+        tries += 1
+        z = rng.random()
+        if z < 0.4:
+            base = _catalyst_base(rng)
+        elif z < 0.5:
+            base = _autocat_base(rng)
+        elif z < 0.7:
+            base = _gcd_base(rng)
+        else:
+            base = _flow_case_from_walk(rng, HIST_REACH)
+            if rng.random() < 0.4:
+                base = _perturb(rng, base)
+            base.update(t="hist", kind="hist-walk")
+        if base is None:
+            continue
+        for k in ("max_states", "max_depth", "via"):
+            base.pop(k, None)
+        if rng.random() < 0.55:
+            pat = rng.choice(HIST_PATTERNS[-2:] + [["W", "R", "C"]] if base["kind"] == "hist-autocat" and rng.random() < 0.7
+                             else HIST_PATTERNS)
+            need = base.get("need", 2)
+            ops = []
+            fl = base["flow"]
+            for o in pat:
+                if o == "S":
+                    ops.append(["S", rng.choice([need, need, need + 1, max(need - 1, 1), 3])])
+                elif o == "R":
+                    ops.append(["R", None, None])
+                elif o == "Rb":
+                    ops.append(["R", rng.randint(1, 6), None])
+                elif o == "L2":
+                    fl = [[e, 2 * f] for e, f in fl]
+                    ops.append(["L", fl])
+                elif o == "W":
+                    ops.append(["W", 1])
+                else:
+                    ops.append([o])
+        else:
+            ops = _rand_ops(rng, base, rng.randint(3, 8))
+        c = dict(base, ops=ops)
+        if not _hist_ok(c):
+            continue
+        cases.append(c)
+    return cases
+
+
 def gen_cases(tier, rng):
     cases = []
+    cases += gen_histories(150 if tier == "quick" else 1500, rng)
     cases += gen_exhaustive(tier, rng)
     for rx in TEXTBOOK_NETS:
         for mode in ("hg", "bip", "und"):
@@ -914,13 +1347,16 @@ def gen_cases(tier, rng):
     return cases
 
 
-LEVEL_TEXT = ("Machine-checked proof (Coq, 9 theorems, all closed under the global context) over an executable, structure-following model of "
+LEVEL_TEXT = ("Machine-checked proof (Coq, 11 theorems, all closed under the global context) over an executable, structure-following model of "
               "structure.py / net.py / realizability.py: (1) the siphon and trap index predicates equal the Petri-net definitions for every network "
               "and every species subset; (2) _minimal_sets returns exactly the inclusion-minimal candidates for every candidate list; (3) find_siphons / "
               "find_traps report exactly the minimal non-empty siphons / traps (for every max_size); (4) enabled <=> marking covers the reactants, "
               "fire = products - reactants at every place; (5) for every network, flow and bounds a sequence returned by is_realizable fires each "
               "reaction exactly flow times, is covered at every step (hence never negative) and returns every species to zero; (6) the search fuel "
-              "is never exhausted; (7) completeness within the bounds, proved with the bounds and the existence premise stated on the extended Petri "
+              "is never exhausted; (7) call histories on one PathwayRealizability object (is_realizable / is_scaled_realizable / certificate / build / "
+              "reload in any order): after every history the object holds the flow loaded last, its net and markings are those built from that "
+              "flow, a stored certificate is a correct firing sequence of that flow, and every answer equals the answer of a fresh object "
+              "(history independence); (8) completeness within the bounds, proved with the bounds and the existence premise stated on the extended Petri "
               "net the code builds (_partial; the missing converse simulation is named in props/C20.v).  The model is tied to the Python code by "
               "comparing, on every run, predicate values per subset, minimal sets, the built net, verdict, certificate and the number of "
               "enabled()/fire() calls of the search.")
